@@ -641,6 +641,10 @@ class C11(core.PropertyCheck):
     def gen_yaml(self, rng, kind):
         def content():
             bl = [self.gen_block(rng, "includes/x.yaml", embedded=True) for _ in range(rng.randint(1, 2))]
+            if rng.random() < 0.5:
+                # a giza placeholder that only a PROJECT CONSTANT defines: filled in when the entry is rendered, not when the text
+                # of the file is read - the text (and its hash) stays the same when the constant changes
+                bl.append("Runs with version {{ver}}.")
             return "\n\n".join(bl).replace("\n", "\n  ")
         if kind == "steps":
             return f"title: Set up {rng.randint(0, 9)}\nref: setup-one\ncontent: |\n  {content()}\n...\n"
@@ -698,7 +702,7 @@ class C11(core.PropertyCheck):
         r = rng.random()
         if r < 0.10:
             c = copy.deepcopy(cfg)
-            what = rng.choice(["const", "subst", "domain", "title", "landing", "assoc", "assoc", "eol", "canonical"])
+            what = rng.choice(["const", "const", "subst", "domain", "title", "landing", "assoc", "assoc", "eol", "canonical"])
             if what == "const":
                 c["constants"]["ver"] = rng.choice(["1.0", "2.1", "3.0-rc"])
             elif what == "subst":
